@@ -133,8 +133,9 @@ async fn run_history(g: Arc<Group<u64, SfErr>>, specs: Vec<CallerSpec>, rec: Arc
         }));
     }
     // bounded-progress monitor
-    let deadline = Instant::now() + Duration::from_secs(30);
+    let deadline = Instant::now() + Duration::from_secs(60);
     let mut stuck_rounds = 0;
+    let mut stuck_since: Option<Instant> = None;
     let mut lost = false;
     let mut watchdog = false;
     loop {
@@ -184,13 +185,22 @@ async fn run_history(g: Arc<Group<u64, SfErr>>, specs: Vec<CallerSpec>, rec: Arc
             };
             if still {
                 stuck_rounds += 1;
+                if stuck_since.is_none() {
+                    stuck_since = Some(Instant::now());
+                }
+                // give an OS-preempted worker thread (whose LIFO slot is not stealable) real time to run
+                tokio::time::sleep(Duration::from_millis(40)).await;
             } else {
                 stuck_rounds = 0;
+                stuck_since = None;
             }
         } else {
             stuck_rounds = 0;
+            stuck_since = None;
         }
-        if stuck_rounds >= 3 {
+        // the logical condition must hold over many probe rounds AND a generous stretch of wall-clock
+        // time; the wall clock alone never decides
+        if stuck_rounds >= 20 && stuck_since.map(|t| t.elapsed() >= Duration::from_secs(4)).unwrap_or(false) {
             lost = true;
             break;
         }
